@@ -171,8 +171,7 @@ func (e *exec) judgeImage(o Op, im *image, lower, upper *tsdbmodel.Model) {
 	lower.Epoch++
 	upper.Epoch++
 	cut := replayCutoff(db)
-	lower.PurgeDeletedBelow(cut)
-	upper.PurgeDeletedBelow(cut)
+	lower.OpenCutoff, upper.OpenCutoff = cut, cut
 	tagAtRisk(db, lower)
 	ok := e.verify(db, lower, upper, "crash-recovery", where, math.MinInt64)
 	if !ok && debugOn {
